@@ -417,6 +417,8 @@ pub fn build<'src, I: HInput<'src>, E: HErr<'src, I>>(g: &G, cx: &Cx<'src, I, E>
             let p = b(a);
             custom(move |inp| inp.parse(p.clone())).bx()
         }
+        G::UnwrapSome(a) => b(a).map(Some).unwrapped().bx(),
+        G::UnwrapOk(a) => b(a).map(Ok::<Val, String>).unwrapped().bx(),
         G::CCheck(a) => {
             let p = b(a);
             custom(move |inp| inp.check(p.clone()).map(|()| Val::Unit)).bx()
